@@ -158,19 +158,23 @@ def gen_cases(ctx, rng):
                         hc.append(http(verify=verify, ca=ca, sys=sys, scert=scert, url=url))
     hc_extra = [http(verify=v, ca="right", ceil=c, peer=p) for v in (0, 1) for c in CEILS for p in ("tls", "plain", "garbage")]
     hc_extra += [http(verify=1, ca="right", scert="mismatch", ceil="12"), http(verify=0, ca="none", scert="mismatch", ceil="12")]
+    hc_fixed = [http(verify=1, ca="right", scert=s, url=u) for s in ("valid", "wrongname", "expired", "self") for u in ("name", "ip")] + \
+               [http(verify=1, ca="none", sys="right", scert="wrongname"), http(verify=1, ca="wrong", sys="right"), http(verify=1, ca="right", sys="wrong"),
+                http(verify=0, ca="none", scert="self"), http(verify=1, ca="right", peer="plain"), http(verify=1, ca="right", ceil="11")]
     if quick:
         rng.shuffle(hc)
-        hc = hc[:40]
+        hc = hc[:30]
         rng.shuffle(hc_extra)
-        hc_extra = hc_extra[:8]
-    cs += [case("http", o) for o in hc + hc_extra]
+        hc_extra = hc_extra[:6]
+    cs += [case("http", o) for o in hc_fixed + hc + hc_extra]
     # ---- HttpServer
     hs = [hsrv(require=r, ca=ca, own=own, ccert=cc) for r in (0, 1) for ca in TRUSTS for own in ("valid", "expired", "mismatch") for cc in CCERTS]
     hs += [hsrv(peer=p) for p in ("plain", "garbage")] + [hsrv(ceil=c) for c in CEILS]
+    hs_fixed = [hsrv(require=1, ca="right", ccert=cc) for cc in CCERTS] + [hsrv(require=1, ca="none", ccert="cvalid"), hsrv(require=0, ca="none")]
     if quick:
         rng.shuffle(hs)
-        hs = hs[:14]
-    cs += [case("hsrv", o) for o in hs]
+        hs = hs[:10]
+    cs += [case("hsrv", o) for o in hs_fixed + hs]
     # ---- edge-/level-triggered epoll x batching
     variants = [(0, 0), (0, 1), (1, 1)]
     ext = []
